@@ -260,16 +260,16 @@ def _locate_random(rng):
     for _ in range(rng.randint(1, 6)):
         base = list(rng.choice(X))
         r = rng.random()
-        if r < 0.45:
+        if r < 0.5:
             xs.append(base)
-        elif r < 0.7:      # clearly inside the tolerance ball (if it has a dyadic interior) — else exact
+        elif r < 0.82:      # clearly inside the tolerance ball (if it has a dyadic interior) — else exact
             j = rng.randrange(d)
             step = 0.0
             if a >= 2.0 ** -6:
                 step = 2.0 ** math.floor(math.log2(a)) / 2.0
             base[j] += rng.choice([-1, 1]) * step
             xs.append(base)
-        elif r < 0.9:      # clearly outside
+        elif r < 0.9:      # clearly outside (one such row rejects the whole query)
             j = rng.randrange(d)
             base[j] += rng.choice([-1, 1]) * max(2.0 ** -9, 4.0 * abs(a))
             xs.append(base)
